@@ -11,3 +11,6 @@ import BalmProofs.Props.C01
 #print axioms Balm.Impl.attractors_sound
 #print axioms Balm.Impl.attractors_complete
 #print axioms Balm.Impl.mem_ownAttrs
+#print axioms Balm.Impl.symbolicSeeds_spec
+#print axioms Balm.Impl.nodeSeeds_spec
+#print axioms Balm.Impl.reaches_attr
